@@ -155,35 +155,37 @@ def r20_3(ck: Check) -> None:
         ck.ok("R20.3", construct, "", s.fi.loc)
     else:
         ck.violated("R20.3", construct, "handled %s, concrete %s" % (sorted(short(h) for h in handled), sorted(short(c) for c in concrete)), s.fi.loc)
+    hr = sp.term("self.hello_received")
     guard = sp.term("not self.hello_received")
-    gr = [e for e in s.raises() if guard in [c.term for c in e.pc if c.prov == "branch"]]
+
+    def cset(e: Event) -> set:
+        return {x for c in e.pc for x in conjuncts(c.term)}
+    gr = [e for e in s.raises() if guard in cset(e)]
     construct = "handle_message_received: only the greeting is handled before `first message must be Hello` is enforced"
     okg = len(gr) == 1
     if okg:
         for cls, e in handled.items():
-            if cls.endswith("HelloMessage"):
-                okg = okg and e.seq < gr[0].seq
-            else:
-                okg = okg and e.seq > gr[0].seq and sp.term("self.hello_received") in [c.term for c in e.pc if c.prov == "raise-surv"]
+            if not cls.endswith("HelloMessage"):
+                okg = okg and hr in cset(e)          # reached only with the handshake done (guard clause or enclosing branch)
     if okg:
         ck.ok("R20.3", construct, "", gr[0].loc)
     else:
         ck.violated("R20.3", construct, "protocol-order guard missing or bypassable", s.fi.loc)
-    last = s.events[-1] if s.events else None
+    isinst = lambda x: x[0] == "call" and x[1] == ("g", "builtin:isinstance")  # noqa
+    unknown_raise = [e for e in s.raises() if not any(isinst(x) for x in cset(e)) and e not in gr]
     construct = "handle_message_received ends in an unconditional raise for unknown message types"
-    if last is not None and last.kind == "raise" and all(c.prov in ("ret-surv", "raise-surv") for c in last.pc):
-        ck.ok("R20.3", construct, "", last.loc)
+    if not s.falls and unknown_raise:
+        ck.ok("R20.3", construct, "", unknown_raise[-1].loc)
     else:
         ck.violated("R20.3", construct, "falls through silently", s.fi.loc)
     d = ck.summ(CRP + "handle_data_message_received", 0)
     spd = Spec(d, ("self", "header", "message"))
-    last = d.events[-1] if d.events else None
     blk = [e for e in d.events if e.kind == "call" and CRP + "handle_block_received" in e.targets]
     txs = [e for e in d.events if e.kind == "call" and CRP + "handle_transaction_received" in e.targets]
+    tb, tt = spd.term("message.data_type == DATA_BLOCK"), spd.term("message.data_type == DATA_TRANSACTION")
+    other = [e for e in d.raises() if tb not in cset(e) and tt not in cset(e)]
     construct = "handle_data_message_received: DATA_BLOCK -> block handler, DATA_TRANSACTION -> transaction handler, anything else raises"
-    if last is not None and last.kind == "raise" and all(c.prov in ("ret-surv", "raise-surv") for c in last.pc) and len(blk) == 1 and len(txs) == 1 \
-            and spd.term("message.data_type == DATA_BLOCK") in [c.term for c in blk[0].pc] \
-            and spd.term("message.data_type == DATA_TRANSACTION") in [c.term for c in txs[0].pc]:
+    if not d.falls and other and len(blk) == 1 and len(txs) == 1 and tb in cset(blk[0]) and tt in cset(txs[0]):
         ck.ok("R20.3", construct, "", d.fi.loc)
     else:
         ck.violated("R20.3", construct, "data dispatch changed", d.fi.loc)
